@@ -2,12 +2,21 @@
 
 Two correspondence streams (see harness/c07/main.cpp and lean/FeatModel/Driver/C07.lean):
   control : the stopping-criterion state machine of IterativeSolver at double, fed with dyadic / non-finite defects
-  solvers : sessions of apply()/correct() calls on one real PCG / Richardson / PCR / PMR / PCGNR / BiCGStab / Chebyshev object at the exact scalar Q
+  solvers : sessions of apply()/correct() calls on one real PCG / Richardson / PCR / PMR / PCGNR / BiCGStab / Chebyshev / RGCR object at the exact scalar Q
 The oracle below is independent Python (fractions): it recomputes the true residual ||F(b - A x)|| from the returned
 iterate, a dense reference solution, and judges the reported status against the configured limits and the defects
 the solver produced.
 
 Findings (standard mechanism: executed and judged on every run, matched against KNOWN_FINDINGS.json by signature):
+  c07-edge:F11 (life-cycle stream) BiCGStabL returns Status::undefined when the initial defect is already converged
+               (same pattern as the fixed F-C07-1 of BiCGStab)
+  c07-edge:F10 (life-cycle stream) BiCGStabL starts every solve with u_j := u_j * (-beta), beta = 0, instead of
+               clearing u_j: after a solve that broke down with NaN/Inf the object stays poisoned
+  c07-edge:F9  (life-cycle stream) RGCR keeps the recycled directions p_j, q_j = A p_j across done_numeric()/
+               init_numeric(); after a change of the matrix values q_j != A p_j, the recursively updated defect is not
+               the true residual any more and 'success' is returned with a residual of order 1
+  c07-edge:F8  (life-cycle stream) IDRS: done_symbolic() releases the shadow-space vectors but does not reset the
+               'shadow space is set up' flag: after done()+init() the object iterates with uninitialised vectors
   c07-edge:F7  (double-precision stream) FGMRES divides by the norm of the new Arnoldi vector without a happy-breakdown
                test: on a system whose Krylov space is smaller than krylov_dim (e.g. the identity) it returns 'aborted'
                with a NaN iterate
@@ -419,11 +428,14 @@ def fmt_mat(a):
 
 
 def gen_solve(rng, tier):
-    kind = rng.choice(["pcg", "pcg", "pcg", "rich", "rich", "pcr", "pmr", "pcgnr", "bicgstab", "bicgstab", "cheb"])
+    kind = rng.choice(["pcg", "pcg", "pcg", "rich", "rich", "pcr", "pmr", "pcgnr", "bicgstab", "bicgstab", "cheb", "rgcr"])
     n = rng.choice([1, 2, 2, 3, 3, 4, 4, 5, 6] if tier == "quick" else [1, 2, 3, 3, 4, 4, 5, 5, 6, 7])
     tags = []
     # matrix class
-    if kind == "cheb":
+    if kind == "rgcr":
+        mc = rng.choice(["spd", "nonsym"])
+        n = min(n, 3)
+    elif kind == "cheb":
         mc = "gap"
         n = min(n, 5)
     elif kind == "pcgnr":
@@ -526,7 +538,9 @@ def gen_solve(rng, tier):
         cfg.stag_rate = rng.choice([Fr(1, 2), Fr(19, 20)])
     if kind != "rich":
         # exact rationals roughly double in length per Krylov iteration once the method leaves its scope
-        if kind == "cheb":
+        if kind == "rgcr":
+            cap = 3  # every new direction is normalised with the truncated square root: the rationals double in length
+        elif kind == "cheb":
             cap = 6
         elif kind in ("bicgstab", "rbicgstab"):
             cap = 6
@@ -933,6 +947,8 @@ def oracle_solve(case, out):
                 continue
             if mi == "c" and xi != xj:
                 continue
+            if sc.kind == "rgcr":
+                continue  # RGCR recycles directions of earlier solves by design: equal systems, different paths
             STATS["pair_checks"] += 1
             if res[i]["raw"] != res[j]["raw"]:
                 return "solves %d and %d (%s, same right-hand side%s) gave different results on the same solver object" % (
@@ -1052,7 +1068,194 @@ def oracle_t3(case, out):
     return None
 
 
+# ---------------------------------------------------------------------------------------------
+# stream 4: life-cycle sessions at double for EVERY iterative solver class that instantiates on DenseVector /
+# SparseMatrixCSR; differential oracle inside FEAT: the reused object against a brand-new object, bit for bit
+# ---------------------------------------------------------------------------------------------
+
+SESSIOND_KINDS = ["pcg", "pcr", "pmr", "pcgnr", "rich", "bicgstab", "bicgstabl", "fgmres", "gmres", "rgcr", "idrs", "cheb"]
+# not instantiable on DenseVector (they need Global::Vector::dot_async / norm2_async): PipePCG, GroppPCG, RBiCGStab
+RECYCLING_KINDS = ("rgcr",)   # RGCR keeps a quarter of its direction lists from one solve to the next, by design
+
+
+def gen_sessiond(rng):
+    kind = rng.choice(SESSIOND_KINDS)
+    n = rng.choice([3, 4, 6, 8, 10])
+    nm = rng.choice([1, 2, 3])
+    sym = kind in ("pcg", "pcr", "pmr", "cheb") or rng.random() < 0.4
+    mats = [gen_spd(rng, n) if sym else gen_nonsym(rng, n, True) for _ in range(nm)]
+    cons = sorted(rng.sample(range(n), rng.randrange(0, n // 2))) if rng.random() < 0.3 else []
+    ftoks = ["unit", str(len(cons))] + [str(i) for i in cons] if cons else ["none"]
+    ptoks = ["jac", "1"] if (rng.random() < 0.4 and kind != "cheb") else ["none"]
+    cfg = Cfg(tol_rel=Fr(1, 10 ** rng.randrange(4, 10)), tol_abs=Fr(10 ** 9), tol_abs_low=Fr(0), div_rel=Fr(10 ** 9),
+              div_abs=Fr(10 ** 12), stag_rate=Fr(19, 20), min_iter=0, max_iter=rng.choice([4, 80, 80, 80]),
+              min_stag=0, skip=True)
+    if kind == "rich":
+        omega = 1 / max(sum(abs(x) for x in r) for m in mats for r in m)
+        if ptoks[0] == "jac":
+            omega = Fr(1, 2)
+        omega = Fr(float(omega))
+    elif kind == "cheb":
+        omega = Fr(9, 8)
+    else:
+        omega = Fr(1)
+    steps = ["S", "N"]
+    solves = 0
+    while solves < rng.choice([2, 3, 4, 5]):
+        u = rng.random()
+        if u < 0.55:
+            mode = rng.choice(["a", "c"])
+            b = [dyad(rng) for _ in range(n)]
+            if mode == "a":
+                b = [Fr(0) if i in cons else b[i] for i in range(n)]
+            x0 = [dyad(rng) for _ in range(n)]
+            steps.append("%s %s %s" % (mode, fmt_vec(x0), fmt_vec(b)))
+            solves += 1
+        elif u < 0.65:
+            steps += ["E", "N"]
+        elif u < 0.78:
+            steps += ["E", "M %d" % rng.randrange(nm), "N"]
+        elif u < 0.90:
+            steps += ["E", "D", "S"] + (["M %d" % rng.randrange(nm)] if rng.random() < 0.5 else []) + ["N"]
+        else:
+            steps.append("R")
+    toks = ["sessiond", kind, str(n), str(nm)] + [fmt_mat(m) for m in mats] + ftoks + ptoks + cfg.tokens(False) + \
+           [fs(omega), str(len(steps))] + steps
+    return " ".join(toks)
+
+
+class SessionDCase:
+    def __init__(self, case):
+        t = case.split()
+        p = [1]
+
+        def tok():
+            p[0] += 1
+            return t[p[0] - 1]
+
+        def frs(k):
+            return [vlib.parse_frac(tok()) for _ in range(k)]
+
+        self.kind = tok()
+        n = self.n = int(tok())
+        nm = int(tok())
+        self.mats = [[frs(n) for _ in range(n)] for _ in range(nm)]
+        self.cons = []
+        if tok() == "unit":
+            self.cons = [int(tok()) for _ in range(int(tok()))]
+        self.pk = tok()
+        if self.pk == "jac":
+            tok()
+        f = frs(6)
+        self.cfg = Cfg(f[0], f[1], f[2], f[3], f[4], f[5], int(tok()), int(tok()), int(tok()), tok() != "0")
+        tok()
+        ns = int(tok())
+        self.steps = []
+        for _ in range(ns):
+            st = tok()
+            if st == "M":
+                self.steps.append(("M", int(tok())))
+            elif st in ("a", "c"):
+                self.steps.append((st, frs(n), frs(n)))
+            else:
+                self.steps.append((st,))
+
+
+def oracle_sessiond(case, out):
+    sc = SessionDCase(case)
+    cfg = sc.cfg
+    if is_abnormal(out):
+        return "life-cycle session ended with " + out
+    parts = out.split(" | ") if out else []
+    n = sc.n
+    tol_rel, tol_abs, tol_low = (Fr(float(cfg.tol_rel)), Fr(float(cfg.tol_abs)), Fr(float(cfg.tol_abs_low)))
+    cur = sc.mats[0]
+    k = 0
+    fresh_lists = True       # no solve since the last init_symbolic (relevant for the recycling solver)
+    stale_shadow = False
+    stale_recycled = False
+    poisoned = False         # an earlier solve on this object broke down with NaN/Inf
+    edge = None
+    hist = []
+    for st in sc.steps:
+        hist.append(st[0])
+        if st[0] == "M":
+            if sc.mats[st[1]] != cur and not fresh_lists:
+                stale_recycled = True   # RGCR: recycled directions of the OLD matrix survive (finding c07-edge:F9)
+            cur = sc.mats[st[1]]
+            continue
+        if st[0] in ("D", "R") and k > 0:
+            stale_shadow = True   # IDRS: done_symbolic() after a solve (finding c07-edge:F8)
+        if st[0] in ("S", "R"):
+            fresh_lists = True
+            stale_recycled = False
+            continue
+        if st[0] not in ("a", "c"):
+            continue
+        if k >= len(parts):
+            return "fewer result records than solves"
+        t = parts[k].split()
+        tag = "solve %d of the session (%s after %s): " % (k, sc.kind, " ".join(hist[:-1][-6:]))
+        k += 1
+        if t[0] != "R" or t[8 + n] != "F":
+            return tag + "unparsable record"
+        reused = t[1:6 + n]
+        fresh = t[9 + n:14 + 2 * n]
+        if t[6 + n] != "1":
+            return tag + "the right-hand side was modified"
+        stt, it = int(t[1]), int(t[2])
+        if sc.kind == "bicgstabl" and stt == 0 and it == 0 and reused == fresh and \
+                (vlib.parse_frac(t[3]) < cfg.tol_abs_low or vlib.parse_frac(t[3]) <= EPS2):
+            edge = edge or F11_MSG % (k - 1)
+            fresh_lists = False
+            continue
+        if stt in (0, 1) or int(t[7 + n]) != stt:
+            return tag + "returned status %s / get_status() %s" % (ST_NAMES.get(stt), t[7 + n])
+        # (1) history independence: same arithmetic in the same order => bit-identical results
+        if reused != fresh and sc.kind == "bicgstabl" and poisoned:
+            edge = edge or F10_MSG % (k - 1, " ".join(hist[:-1][-6:]))
+        elif reused != fresh and sc.kind == "idrs" and stale_shadow:
+            edge = edge or F8_MSG % (k - 1, " ".join(hist[:-1][-6:]))
+        elif reused != fresh and not (sc.kind in RECYCLING_KINDS and not fresh_lists):
+            return tag + "the reused solver object returned (status %s, %s iterations) something different from a " \
+                         "brand-new object on the same system (status %s, %s iterations): history dependence" % (
+                             ST_NAMES.get(stt), it, ST_NAMES.get(int(fresh[0])), fresh[1])
+        fresh_lists = False
+        STATS["sessiond_pairs"] = STATS.get("sessiond_pairs", 0) + 1
+        # (2) success => true residual of the returned doubles within the a-priori bound
+        if "nonfinite" in reused:
+            poisoned = True
+            if stt == 2:
+                return tag + "'success' with a non-finite value"
+            continue
+        mode, x0, b = st
+        x = [vlib.parse_frac(z) for z in t[6:6 + n]]
+        d0 = vlib.parse_frac(t[3])
+        if stt == 2 and it > 0:
+            ax = mat_vec(cur, x)
+            r = [Fr(0) if i in sc.cons else b[i] - ax[i] for i in range(n)]
+            a1 = sum(abs(v) for row in cur for v in row)
+            xs = [Fr(0)] * n if mode == "a" else x0
+            slack = T3_C * (it + 1) * n * U * (a1 * max(sum(abs(v) for v in x), sum(abs(v) for v in xs)) + sum(abs(v) for v in b))
+            thr = min(tol_abs, max(tol_rel * d0, tol_low))
+            bound = thr * (1 + Fr(1, 2 ** 20)) + slack
+            if sum(v * v for v in r) > bound * bound:
+                msg = "'success' but the true residual %.3e of the returned doubles exceeds tol %.3e + rounding " \
+                      "allowance %.3e" % (math.sqrt(float(sum(v * v for v in r))), float(thr), float(slack))
+                if sc.kind == "rgcr" and stale_recycled:
+                    edge = edge or F9_MSG % (k - 1, " ".join(hist[:-1][-6:]), msg)
+                    continue
+                return tag + msg
+            STATS["sessiond_success_checks"] = STATS.get("sessiond_success_checks", 0) + 1
+        bump(STATS["terminal_status"], "sessiond-" + sc.kind + ":" + ST_NAMES[stt])
+    if k != len(parts):
+        return "more result records than solves"
+    return edge
+
+
 def oracle(case, out):
+    if case.startswith("sessiond"):
+        return oracle_sessiond(case, out)
     if case.startswith("solved"):
         return oracle_t3(case, out)
     if case.startswith("ctl"):
@@ -1072,6 +1275,9 @@ def describe(case):
     if t[0] == "ctl":
         return ["op:ctl", "ctl-variant:" + ("update_defect" if t[1] == "1" else "set_new_defect"), "ctl-len:" + t[14],
                 "ctl-skip:" + t[11], "ctl-plot:" + t[12]]
+    if t[0] == "sessiond":
+        sd = SessionDCase(case)
+        return ["op:sessiond", "sessiond-solver:" + t[1]] + ["sessiond-step:" + st[0] for st in sd.steps]
     if t[0] == "solved":
         return ["op:solved", "t3-solver:" + t[1], "t3-n:" + t[2]]
     sc = SolveCase(case)
@@ -1096,6 +1302,16 @@ def signature(case, out, why):
     return "%s:%s" % (" ".join(t[:2]), (why or "")[:60])
 
 
+F11_MSG = "[c07-edge:F11] solve %d of the session: BiCGStabL returns Status::undefined when the initial defect already meets " \
+          "the stopping criterion (the loop is skipped and the function falls through to its final return)"
+F10_MSG = "[c07-edge:F10] solve %d of the session (bicgstabl after %s): BiCGStabL resets its direction vectors by " \
+          "u_j := u_j * (-beta) with beta = 0; NaN/Inf left by an earlier broken-down solve survive (0 * NaN = NaN), so the " \
+          "reused object aborts where a brand-new object succeeds"
+F9_MSG = "[c07-edge:F9] solve %d of the session (rgcr after %s): RGCR keeps its recycled direction lists p_j, q_j = A_old p_j " \
+         "across done_numeric()/init_numeric() although the matrix values changed: %s"
+F8_MSG = "[c07-edge:F8] solve %d of the session (idrs after %s): IDRS::done_symbolic() clears the shadow-space vectors " \
+         "but leaves _shadow_space_setup = true, so after init_symbolic() the solver iterates with uninitialised " \
+         "shadow vectors: the reused object differs from a brand-new object on the same system"
 F7_MSG = "[c07-edge:F7] solve %d (double): FGMRES does not handle the happy breakdown (Arnoldi vector of norm 0 when the " \
          "Krylov space is exhausted): division by (nearly) zero, 'aborted'/'diverged' with a non-finite or huge iterate on a " \
          "nonsingular system"
@@ -1150,6 +1366,8 @@ CORPUS = [
     "solve pcg 3 4 -1 0 -1 4 -1 0 -1 4 none ssor 1 0 1000000000 0 1000000000 1000000000000 19/20 0 9 0 1 1 2 a 9 9 9 1 2 3 0 c 1 1 1 1 2 3 2",
     "solve bicgstab 3 4 -1 0 -2 4 -1 0 -2 4 unit 1 1 sor 3/4 1/1000 1000000000 0 1000000000 1000000000000 19/20 0 6 0 1 1 1 c 1 5 1 1 2 3 0",
     "solve rich 3 4 -1 0 -1 4 -1 0 -1 4 none jac 1/2 1/100 1000000000 0 1000000000 1000000000000 19/20 0 20 0 1 1 1 a 0 0 0 1 2 3 0",
+    "solve rgcr 2 3 1 -1 2 none none 0 1000000000 0 1000000000 1000000000000 19/20 0 3 0 1 1 3 a 1 1 1 2 0 c 0 0 2 1 0 a 0 0 1 1 2",
+    "solve rgcr 3 4 -1 0 -1 4 -1 0 -1 4 unit 1 1 jac 1 1/100 1000000000 0 1000000000 1000000000000 19/20 0 4 0 1 1 2 a 0 0 0 1 0 3 0 c 1 5 1 1 2 3 1",
     "solve pmr 2 2 1 1 3 none mat 1/2 0 0 1/3 0 1/100 1000000000 0 1000000000 1000000000000 19/20 0 5 0 1 1 2 a 9 9 1 2 0 c 1 1 1 2 2",
     # Richardson with a diverging damping parameter and a fixed iteration count: finding F3, fixed in /repo 8aa081eb5 (regression line, now max_iter)
     "solve rich 1 1 none none 1 1000000000 0 1000000000 1000000000000 19/20 2 2 0 1 3 1 a 0 1 0",
@@ -1167,6 +1385,17 @@ CORPUS = [
 ]
 
 
+SD_CORPUS = [
+    # open finding c07-edge:F11: BiCGStabL, zero right-hand side
+    'sessiond bicgstabl 2 1 2 1 1 3 none none 1/100000000 1000000000 0 1000000000 1000000000000 19/20 0 30 0 1 1 3 S N a 5 5 0 0',
+    # open finding c07-edge:F10: BiCGStabL poisoned by an earlier breakdown
+    'sessiond bicgstabl 3 1 3/1 0/1 0/1 1/1 13/4 3/4 -3/2 0/1 3/1 none jac 1 1/100000000 1000000000/1 0/1 1000000000/1 1000000000000/1 19/20 0 80 0 1 1/1 28 S N E M 0 N R E N E M 0 N a -1/1 -1/1 3/1 -1/2 0/1 -2/1 E M 0 N E M 0 N E N a 2/1 2/1 -2/1 1/1 -1/8 -2/1 E D S M 0 N R a -4/1 3/1 1/1 2/1 -4/1 -1/1',
+    # open finding c07-edge:F8: IDRS after done()+init()
+    "sessiond idrs 4 1 4 -1 0 0 -1 4 -1 0 0 -1 4 -1 0 0 -1 4 none none 1/100000000 1000000000 0 1000000000 1000000000000 "
+    "19/20 0 60 0 1 1 5 S N a 0 0 0 0 1 2 3 4 R a 0 0 0 0 1 2 3 4",
+    # open finding c07-edge:F9: RGCR after done_numeric / new matrix values / init_numeric
+    "sessiond rgcr 6 2 4 -1 0 0 0 0 -1 4 -1 0 0 0 0 -1 4 -1 0 0 0 0 -1 4 -1 0 0 0 0 -1 4 -1 0 0 0 0 -1 4 9 1 0 0 0 2 1 9 1 0 0 0 0 1 9 1 0 0 0 0 1 9 1 0 0 0 0 1 9 1 2 0 0 0 1 9 none none 1/100000000 1000000000 0 1000000000 1000000000000 19/20 0 60 0 1 1 7 S N a 0 0 0 0 0 0 1 2 3 4 5 6 E M 1 N a 0 0 0 0 0 0 1 2 3 4 5 6",
+]
 T3_CORPUS = [
     # open finding c07-edge:F7: FGMRES(4) on the 2x2 identity: the Krylov space has dimension 1
     "solved fgmres 2 1 0 0 1 none none 1/10000000 1000000000 0 1000000000 1000000000000 19/20 0 60 0 1 1 1 a 0 0 1 2 0",
@@ -1190,6 +1419,8 @@ def main(argv):
         case = json.load(open(args.replay))["input"]
         ctl_cases = [case] if case.startswith("ctl") else []
         solve_cases = [case] if case.startswith("solve ") else []
+    if args.replay and case.startswith("sessiond"):
+        pass
     else:
         ctl_cases = [c for c in CORPUS if c.startswith("ctl")] + [gen_ctl(rng) for _ in range(20000 if quick else 150000)]
         solve_cases = [c for c in CORPUS if c.startswith("solve")] + leak_probes() + \
@@ -1204,6 +1435,10 @@ def main(argv):
     if not args.replay or case.startswith("solved"):
         t3_cases = [case] if args.replay else T3_CORPUS + [gen_t3(rng) for _ in range(1500 if quick else 15000)]
         streams.append(vlib.Stream("double-precision", t3_cases, [binary], None, oracle=oracle, nontrivial=nontrivial,
+                                   describe=describe, signature=signature, canon=canon))
+    if not args.replay or case.startswith("sessiond"):
+        sd_cases = [case] if args.replay else SD_CORPUS + [gen_sessiond(rng) for _ in range(2500 if quick else 25000)]
+        streams.append(vlib.Stream("life-cycle", sd_cases, [binary], None, oracle=oracle, nontrivial=nontrivial,
                                    describe=describe, signature=signature, canon=canon))
     extra = {"rule": "control: the real IterativeSolver state machine (via a test subclass) on dyadic/non-finite defect "
                      "sequences of length 1..14 with all min/max-iter, tolerance, divergence, stagnation, skip_defect_calc "
